@@ -62,6 +62,22 @@ def gen_c10(seed, count):
                 c.feed(publish(1, r.randint(1, 9), b't', b'y'), r.choice(interesting))
             else:
                 c.feed(ack(4, 1, None), r.choice(interesting))
+        if r.random() < 0.3:
+            # a second connection whose CONNACK names another Server Keep Alive, or none: nothing of the first one counts
+            c.drop()
+            server2 = r.choice([None, None, None, 0, 1, 3, 10, 30])
+            c.connect(connack(r.choice([0, 1]), 0, [(19, server2)] if server2 is not None else []))
+            k2 = (ka if server2 is None else server2) * 1000
+            i2 = k2 - _lead(k2)
+            times = [0, 1, 500, 999, 1000, 1001, 2500, 5000, 5001] + ([i2 - 1, i2, i2 + 1, k2] if k2 else [])
+            for _ in range(r.randint(2, 6)):
+                y = r.random()
+                if y < 0.6:
+                    c.poll()
+                elif y < 0.8:
+                    c.feed(PINGRESP, r.choice(times))
+                else:
+                    c.advance(r.choice(times))
         c.poll()
         if r.random() < 0.1:
             c.ev((0, 1), (0, 2), (0, 1000), (0, 1000), (0, 1))
@@ -375,6 +391,21 @@ def gen_c15(seed, count):
             r2 = random.Random(st)
             b = prog(4, [(0, r.choice([1, 2, 3])) for _ in range(200)])
             out.append((a, b, {'kind': 'slow first write'}))
+        if idx % 97 == 5:
+            # a queued packet longer than 64 KiB whose partial writes carry the resume offset across 65535
+            size = r.choice([70000, 65600, 66000])
+            pay = bytes([idx & 255]) * size
+            def big(frag):
+                c = Case(rx=64, tx=size + 200, ka=0)
+                c.connect(connack(0, 0, []))
+                c.publish(b'big', pay, qos=1)
+                c.feed(ack(4, 1))
+                c.poll()
+                c.publish(b'after', b'x', qos=1)
+                c.ev(*([(0, 1000000)] * 5 + frag))
+                return c.line()
+            frag = r.choice([[(0, 66000)], [(0, 65536)], [(0, 30000), (0, 36000)], [(0, 65535), (0, 1)], [(0, 40000), (0, 25536), (0, 3)]])
+            out.append((big([]), big(frag), {'kind': 'offset beyond 64 KiB'}))
     return out
 
 
@@ -895,6 +926,24 @@ def gen_c06(seed, count):
     out = []
     for idx in range(count):
         r = random.Random((seed << 20) ^ idx ^ 0xC06)
+        if idx % 6 == 5:
+            # a broker window larger than what the client can track (Receive Maximum 9.. or absent): eight QoS 2 exchanges
+            # parked between PUBREC and PUBCOMP, then more publishes, whose PUBRECs must still find a release slot
+            c = Case(rx=64, tx=1152)
+            c.connect(connack(0, 0, r.choice([[], [(33, 9)], [(33, 20)], [(33, 65535)]])))
+            n = r.choice([8, 8, 7])
+            for pid in range(1, n + 1):
+                c.publish(b'a', bytes([64 + pid]), qos=2)
+                c.feed(ack(5, pid)).poll()
+            for k in range(r.randint(1, 3)):
+                c.publish(b'more', bytes([48 + k]), qos=r.choice([2, 2, 1]))
+                c.feed(ack(5, n + 1 + k)).poll()
+            for pid in r.sample(range(1, n + 1), r.randint(0, 3)):
+                c.feed(ack(7, pid)).poll()
+            c.publish(b'last', b'z', qos=2)
+            c.poll()
+            out.append(c.line())
+            continue
         rm = r.choice([1, 1, 2, 2, 3, 8])
         c = Case(rx=64, tx=r.choice([256, 1152]))
         c.connect(connack(0, 0, [(33, rm)]))
